@@ -313,8 +313,9 @@ def parse_log(text, harnesses):
                 j += 1
             r = res.setdefault(name, {"status": "NO-VERDICT", "failed_checks": [], "raw": []})
             kind = "assertion"
+            desc = ""
             for b in body:
-                mm = re.match(r"/// Check for `(\w+)`: \"(.*)\"", b)
+                mm = re.match(r"/// Check for `(\w+)`: \"(.*?)\"?$", b)
                 if mm:
                     kind = mm.group(1)
                     desc = mm.group(2)
